@@ -3,7 +3,7 @@
    representation).  A stage = one bond: C (m x (n*q)) is the current remainder, U (m x r) the kept left singular vectors,
    B = U^H C (r x (n*q)) the projected remainder = diag(s) V restricted to the kept rank, reshaped to ((r*n) x q) for the next bond. *)
 From Coq Require Import List Arith Bool.
-From TT Require Import RingSig SumN Mat.
+From TT Require Import RingSig SumN Mat Core.
 Import ListNotations.
 
 Section Sweep.
@@ -38,5 +38,16 @@ Fixpoint stages_ok (ss : list stage) : Prop :=
       | s' :: _ => sm s' = (sr s * sn s)%nat /\ sq s = (sn s' * sq s')%nat
       end /\ stages_ok rest
   end.
+
+(* the cores the sweep returns: core k is the kept left factor U_k viewed as r_(k-1) x n_k x r_k (tn.reshape(u, [r, n, -1])), the
+   last core is the final remainder viewed as r_(d-1) x n_d x 1.  rprev, ncur: left rank and mode size of the core being emitted. *)
+Fixpoint sweep_cores (rprev ncur : nat) (ss : list stage) (C : mat R) : tt R :=
+  match ss with
+  | [] => [mk3 rprev ncur 1 (fun p i _ => C (p * ncur + i)%nat O)]
+  | s :: rest => mk3 rprev ncur (sr s) (fun p i q => sU s (p * ncur + i)%nat q) :: sweep_cores (sr s) (sn s) rest (stage_next s C)
+  end.
+(* the last bond leaves a single column *)
+Fixpoint last_q1 (ss : list stage) : Prop :=
+  match ss with [] => True | [s] => sq s = 1%nat | _ :: rest => last_q1 rest end.
 End Sweep.
 Arguments stage R : clear implicits.
